@@ -92,10 +92,19 @@ def prop(rng, names, depth):
         return {"$ref": "#/definitions/" + rng.choice(names)}
     if r < 0.87:
         key = rng.choice(["anyOf", "anyOf", "oneOf"])
-        if rng.random() < 0.15:
+        q = rng.random()
+        if q < 0.15:
             return {key: [nullable_enum(rng), {"type": "integer"}]}
+        if q < 0.3 and names:
+            return {key: [{"$ref": "#/definitions/" + rng.choice(names)}, {"type": rng.choice(["integer", "boolean"])}]}
+        if q < 0.45:
+            t = rng.choice(["string", "integer"])
+            u = {"anyOf": [{"type": t}, {"type": [t, "null"]}]}      # the second alternative is the nullable form of the first
+            return rng.choice([{"type": "array", "items": u}, {"type": "object", "additionalProperties": u}, u])
         return {key: [scalar(rng, False), {"type": "array", "items": scalar(rng, False)}]} if rng.random() < 0.5 else {key: [{"type": "string"}, {"type": "integer"}]}
     if r < 0.93:
+        if names and rng.random() < 0.25:
+            return {"type": "object", "additionalProperties": {"$ref": "#/definitions/" + rng.choice(names)}}
         return {"type": "object", "additionalProperties": nullable_enum(rng) if rng.random() < 0.15 else scalar(rng, False)}
     return obj(rng, names, depth + 1)
 
@@ -127,6 +136,12 @@ def gen_document(rng):
     names = [f"D{i}" for i in range(k)]
     defs = {}
     for i, nm in enumerate(names):
+        if rng.random() < 0.25:
+            d = scalar(rng)          # a named scalar (root model), often constrained
+            if d["type"] == "boolean":
+                d = {"type": "string", "minLength": 3}
+            defs[nm] = d
+            continue
         base = names[i - 1] if i > 0 and rng.random() < 0.3 and defs[names[i - 1]].get("type") == "object" and "additionalProperties" not in defs[names[i - 1]] else None
         defs[nm] = obj(rng, names[: i + 1] if rng.random() < 0.5 else names[:i], 0, base)
     root = obj(rng, names, 0)
@@ -405,7 +420,7 @@ def norm_reported(schema):
                 return merged
         return s
 
-    def walk(s, ptr, depth):
+    def walk(s, ptr, depth, out):
         s = deref(s)
         if not isinstance(s, dict) or depth > 4:
             return
@@ -417,12 +432,22 @@ def norm_reported(schema):
         if kws:
             out[ptr] = kws
         for p, ps in s.get("properties", {}).items():
-            walk(ps, f"{ptr}/{p}", depth + 1)
+            walk(ps, f"{ptr}/{p}", depth + 1, out)
         if isinstance(s.get("items"), dict):
-            walk(s["items"], ptr + "/[]", depth + 1)
+            walk(s["items"], ptr + "/[]", depth + 1, out)
         if isinstance(s.get("additionalProperties"), dict):
-            walk(s["additionalProperties"], ptr + "/{}", depth + 1)
-    walk(schema, "", 0)
+            walk(s["additionalProperties"], ptr + "/{}", depth + 1, out)
+        for key in ("anyOf", "oneOf"):
+            if isinstance(s.get(key), list) and depth <= 3:
+                alts = []
+                for a in s[key]:
+                    sub = {}
+                    walk(a, "", depth + 1, sub)
+                    ad = deref(a)
+                    sub["type"] = ad.get("type") if isinstance(ad, dict) else None
+                    alts.append(json.dumps(sub, sort_keys=True, default=str))
+                out[ptr + "/|"] = {"alternatives": sorted(alts)}
+    walk(schema, "", 0, out)
     return out
 
 
